@@ -230,11 +230,13 @@ impl Prop for C04 {
             let results: Vec<Vec<(usize, Res)>> = {
                 let st = w.st();
                 let owned = &w.owned;
+                let slot = current_slot();
                 std::thread::scope(|scope| {
                     let hs: Vec<_> = batches
                         .iter()
                         .map(|b| {
                             scope.spawn(move || {
+                                adopt_slot(slot);
                                 b.iter()
                                     .map(|i| {
                                         let r = match guard("Store::store_event", || st.store_event(&owned[*i])) {
